@@ -529,8 +529,8 @@ end
 /-- a primitive attribute value renders the Go value `x` as a fresh value would: payload = cast, null per C20 -/
 def primRenders (info : FieldInfo) (x : GoVal) (a : TfVal) : Bool :=
   match a with
-  | .prim _ u n p =>
-    !u &&
+  | .prim k u n p =>
+    !u && primKindOf info == some k &&
     (if info.isNullable then
       match x with
       | .ptr none => n
